@@ -1351,15 +1351,11 @@ def tokenizer_progress(ctx, rule):
 
 def pretty_progress(ctx, rule):
     fnq = 'pretty.pretty'
-    dn = ctx.consts.folder.env_nodes['pretty'].get('TOKENS')
-    if not isinstance(dn, ast.Dict):
-        raise AnalysisError('pretty.TOKENS is not a dict literal')
-    pats = []
-    for v_ in dn.values:
-        r_ = ctx.consts.by_name(f'pretty.{ast.unparse(v_)}')
-        if r_ is None:
-            raise AnalysisError(f'pretty.TOKENS value {ast.unparse(v_)} is not an inventoried regex')
-        pats.append(r_.pattern)
+    # the token table as the module builds it (a dict literal, or a table completed by import-time loops): by interpretation
+    from .c20 import pretty_tokens
+    pats = [r_.pattern for r_ in pretty_tokens(ctx).values()]
+    if not pats:
+        raise AnalysisError('pretty.TOKENS is empty')
 
     def run(kind, attempts):
         def matcher(rx_obj, text, pos=0, *a_):
@@ -2616,14 +2612,26 @@ def resolve_compile_sites(ctx):
     is no longer listed as unresolved.  Anything else stays unresolved."""
     from ..constfold import Opaque, Rx
     inv = ctx.consts
-    todo = [u for u in inv.unresolved if u[1] == 'css_parser.CSSParser.parse_attribute_selector']
+    # the compile site may sit in parse_attribute_selector itself or in a helper it calls (also a memoised one)
+    try:
+        from ..callgraph import CallGraph
+        cg_ = ctx.get('callgraph', lambda: CallGraph(ctx.types, ctx.src))
+        helpers = cg_.reachable(['css_parser.CSSParser.parse_attribute_selector'])
+    except Exception:       # noqa: BLE001
+        helpers = {'css_parser.CSSParser.parse_attribute_selector'}
+    todo = [u for u in inv.unresolved if u[1] in helpers]
     if not todo:
         return
-    pmod, pfn = ctx.src.func('css_parser.CSSParser.parse_attribute_selector')
-    sites = [c for c in ast.walk(pfn) if isinstance(c, ast.Call) and ast.unparse(c.func) == 're.compile' and pmod.where(c) in {u[0] for u in todo}]
-    if len(sites) != 1:
+    sites = []
+    for u in todo:
+        try:
+            pmod, pfn = ctx.src.func(u[1])
+        except Exception:   # noqa: BLE001
+            continue
+        sites += [(pmod, c) for c in ast.walk(pfn) if isinstance(c, ast.Call) and ast.unparse(c.func) == 're.compile' and pmod.where(c) == u[0]]
+    if not sites or len({id(c) for _, c in sites}) != len(todo):
         return
-    site = sites[0]
+    pmod, site = sites[0]
     M1, M2, HOSTILE = 'Qq9Zz', 'Ww7Kk', 'x.*+?(y)[z]|^$'
     templates, consts = set(), set()
     ok = True
